@@ -181,10 +181,11 @@ PROPS = {
         race_quick=[("serve", 8), ("allocc", 300), ("prefixc", 200)],
         theorems=["C16_alloc6_any_schedule", "C16_alloc4_any_schedule", "C16_range_any_schedule", "C16_prefix_any_schedule", "C16_file_any_schedule"],
         modules=["CoreDhcp.Props.C16"],
-        facts=["F1", "F2", "F4", "F10", "F11"],
+        facts=["F1", "F2", "F4", "F10", "F11", "F12"],
         race=True,
         trusted_base=["the Go memory model, scheduler and sync.Mutex; the race detector (thorough tier: every concurrent engine; quick tier: the serve engine's start-up and link-layer bursts and short allocator / prefix bursts) supports data-race freedom, it proves nothing",
-                      "fact F1 (lock discipline) and F4 (receive buffer returned to the pool after parsing, never touched again) are syntactic checks of the source"],
+                      "fact F1 (lock discipline) and F4 (receive buffer returned to the pool after parsing, never touched again) are syntactic checks of the source",
+                      "logger.GetLogger tests its global outside the mutex; fact F12: it is only called from package-level initialisers and from main before server.Start, i.e. before any goroutine exists"],
         assumptions=["each handler of a stateful plugin is one atomic step (fact F1)",
                      "concurrent batches are judged by searching a one-at-a-time order under which the Lean model accepts every outcome (linearisability check against the model)"],
     ),
